@@ -369,14 +369,21 @@ def selftest(ctx, los_case, tree_case):
 
 
 # --------------------------------------------------------------------------- replay
-def replay(ctx):
-    blob = json.load(open(ctx.replay))
-    case = blob["case"]
-    job = case.get("job", case)
-    job = dict(job)
-    job["steps"] = False
-    cases = core.run_jobs("view_worker", [job], nproc=1)
-    handle_los(ctx, cases, "replay")
+def replay(ctx, rec):
+    """re-run exactly the recorded public call (interpreted mode, tree operations recorded, and compiled)
+    and judge both"""
+    case = rec["case"]
+    job = dict(case.get("job", case))
+    job["steps"] = True
+    cases = core.run_jobs("view_worker", [job], nproc=1, env={"NUMBA_DISABLE_JIT": "1"})
+    ok = handle_los(ctx, cases, "replay_interpreted")
+    handle_sweep_trees(ctx, ok)
+    job2 = dict(job)
+    job2["steps"] = False
+    cases2 = core.run_jobs("view_worker", [job2], nproc=1)
+    ok2 = handle_los(ctx, cases2, "replay_compiled")
+    for c in ok + ok2:
+        ctx.sample({"replayed": rec.get("clause"), "verdict": c.get("_clause"), "output": c.get("raw")})
 
 
 # --------------------------------------------------------------------------- main
@@ -398,8 +405,6 @@ def run(ctx):
         "tree step model checked in interpreted mode (NUMBA_DISABLE_JIT=1) on real sweeps and on the compiled "
         "helpers by direct drive",
     ]
-    if ctx.replay:
-        return replay(ctx)
     rng = random.Random(ctx.seed * 7919 + 5)
     thorough = ctx.tier == "thorough"
 
